@@ -56,7 +56,7 @@ CLAIMED["C01"] = ("Structural clauses: (b) kind-set dataflow proves every typed 
     "same object (VM opcodes and primitives; unguarded helpers become obligations of their call sites); (j) writers of a string's (bytes, offset, "
     "length) keep the view inside the bytes object; (f) every direct C recursion cycle reachable from reader/writer/equal?/eval goes through a "
     "verified depth-parameter bounder (guard direction and per-call-edge step checked) or a listed by-construction bounder; (a) dispatch totality "
-    "of the VM switch; (c1) data-dependent VM stack copies dominated by a capacity check; (d) slot accessor rows designate sexp fields; "
+    "of the VM switch; (c1) data-dependent VM stack copies dominated by a capacity check; (c2) the failure edge of every stack-growth attempt goes to the exit sequence of sexp_apply before any dispatch; (d) slot accessor rows designate sexp fields; "
     "(g) saved context state restored on every path; (h) growable reader buffers advance at most their guard's budget. All-paths decisions of these "
     "clauses (necessary conditions of memory safety / error containment); pointer-walking loops, memcpy lengths, context-owned tables, the reader's "
     "label table, stack-growth sufficiency and out-of-memory paths are not decided.",
@@ -90,9 +90,9 @@ CLAIMED["C03"] = ("Agreement clauses between the compiler's cooperating parts: (
     "sibling agreement: field-read sets per walker closure; path enumeration of the VM dispatch cases (top delta / operand reads) vs constant-evaluated opcode table vs emit call sequences",
     "3 C03")
 CLAIMED["C09"] = ("Structural clauses on simplify.c: (a) simplify/usedp walker agreement; (b) kind-set dataflow: the literal replacing a folded "
-    "application is built only where the fold result cannot be an exception, and the fold runs through sexp_apply_no_err_handler; "
+    "application is built only where the fold result cannot be an exception, and the fold runs through sexp_apply_no_err_handler, which clears every handler source it saves before applying (b2); "
     "(c) let-constant propagation is dominated by the not-in-set-variables test; (d) taint: no value unwrapped from a literal node and no "
-    "result of unchecked fixnum arithmetic reaches an AST slot or the returned AST. Necessary conditions of 'simplification preserves meaning'; "
+    "result of unchecked fixnum arithmetic reaches an AST slot or the returned AST; (e) set-variable membership tests pair a name with the sv list of the lambda that binds it. Necessary conditions of 'simplification preserves meaning'; "
     "result equality across builds and the 128-bit emulation are not decided.",
     "walker field-set agreement; kind-set dataflow probe at the literal construction; edge-dominance of the guard over the substitution push",
     "3 C09")
@@ -105,10 +105,10 @@ CLAIMED["C07"] = ("One clause: every identifier that an explicit-renaming macro 
     "syntax-tree lint over Scheme sources (own s-expression reader; library import/include graph; template walk)",
     "3 C07")
 
-CLAIMED["C08"] = ("One clause: the string-escape letters and character-name tables of the native writer, the native reader, the SRFI-38 writer "
+CLAIMED["C08"] = ("Two clauses. (b) every expression that assembles a code point from masked UTF-8 bytes uses the shifts 6(n-1)..6,0, so the decoders of the reader, string-ref, read-char and utf8-ref agree on every width class. (a) the string-escape letters and character-name tables of the native writer, the native reader, the SRFI-38 writer "
     "and the SRFI-38 reader agree (reader(writer(c)) = c for every escaped character; both readers map the same letters to the same characters; "
     "all name tables hold the same name/code pairs). A necessary condition of round-tripping and of the two reader/writer pairs accepting the "
-    "same texts; float formatting, symbol quoting, labels and UTF-8 are not decided.",
+    "same texts; float formatting, symbol quoting and labels are not decided.",
     "sibling-table agreement: case arms / constant initializers extracted from the C AST vs. tables and case clauses read from lib/srfi/38.scm",
     "3 C08")
 
@@ -133,7 +133,7 @@ CLAIMED["C11"] = ("Atomicity by construction: (a) no path in the whole-program c
     "happens only in the VM loop, so these primitives are atomic; (b) the cut is justified on every run: no installed finalizer reaches the VM "
     "or the allocator except the port finalizer's flush, which is confined to the closed-port arms (openp cleared before the flush, tested "
     "before the custom/string-port arms); (c) the Scheme code of (srfi 18) never writes the lock/owner slots itself; (d) every primitive that "
-    "queues the current thread as paused stores its event and waitp fields on every path first. Necessary conditions of mutual exclusion / "
+    "queues the current thread as paused stores its event and waitp fields on every path first; (e) FRONT and BACK of the run queue are stored together; (f) a function that writes a thread's wake-up deadline writes it on every path. Necessary conditions of mutual exclusion / "
     "no lost wake-up; fairness and schedule independence are not decided.",
     "whole-program call-graph reachability with function-pointer flow (per struct field / parameter); dominance side conditions justifying the cut edge",
     "3 C11")
